@@ -507,6 +507,27 @@ def preprocessing_timeout_rows(rep, ex: Explorer):
     rep.floor("inference() paths after a preprocessing timeout", n, 1)
 
 
+def _check_query_call(rep, site, events, qvar, per_query_loop):
+    """TIMEOUT.per-query and the argument roles of the operator call made for one query: the operator receives the query,
+    the state's mode flag and a deadline that was created for this very query (or none)."""
+    evs = [e for e, _ in events]
+    news = {e.obj.oid: i for i, e in enumerate(evs) if e.kind == "new" and e.cls.endswith("Deadline") and isinstance(e.obj, Ref)}
+    for i, e in enumerate(evs):
+        if e.kind != "delegate" or e.func != "_inference":
+            continue
+        a = e.args
+        okq = len(a) >= 4 and isinstance(a[1], ElemV) and a[1].var == qvar and a[1].role == "cond"
+        okw = len(a) >= 4 and returned_bool(None, a[2]) == ("truthy", "weakly")
+        rep.check(okq and okw, "TIMEOUT.per-query", f"{site}:{e.node.lineno}", "operator call roles", "the operator is asked about this query in the state's mode (no other value lands in the mode parameter)",
+                  extracted=repr(a[1:3])[:160], required="(query, state.weakly, ...)", function=site)
+        d = a[3] if len(a) >= 4 else None
+        if isinstance(d, Const) and d.value is None:
+            continue
+        okd = isinstance(d, Ref) and d.oid in news and news[d.oid] < i
+        rep.check(okd, "TIMEOUT.per-query", f"{site}:{e.node.lineno}", "deadline of this query", "every query runs under a deadline created for it from the per-query budget" + (" (inside the loop over the queries)" if per_query_loop else ""),
+                  extracted=repr(d)[:80] + ("" if okd else " created elsewhere"), required="Deadline.from_duration(timeout) for this query", function=site)
+
+
 def rows(rep, ex: Explorer, which=("single", "worker", "multi", "manager"), rules=None):
     rep.only = set(rules) if rules else None
     try:
@@ -537,6 +558,9 @@ def _rows(rep, ex: Explorer, which=("single", "worker", "multi", "manager")):
                     evar = loop_ev.evar
                     n_rows += 1
                     _check_row(rep, site, ev, case, evar, "result mapping")
+                if ev.kind == "loop" and not Q and ev.fam == ("members", ("keys", "Q")):
+                    for case in ev.cases:
+                        _check_query_call(rep, site, list(iter_events(case.events)), ev.evar, True)
             if p.outcome[0] == "return":
                 rv = p.outcome[1]
                 if isinstance(rv, Ref):
@@ -558,6 +582,7 @@ def _rows(rep, ex: Explorer, which=("single", "worker", "multi", "manager")):
         paths = ex.run(qual, setup_w, summaries=SUMMARIES, key="worker")
         n = 0
         for p in paths:
+            _check_query_call(rep, site, list(iter_events(p.events)), QUERY, False)
             outcome = None
             for k, v in p.decisions:
                 if k[0] == "delegate-outcome":
@@ -725,8 +750,17 @@ def _manager_rows(rep, ex: Explorer, stats):
         I.log("manager.instance", node)
         return ElemV(("opinstance",), "opinstance")
 
+    holder = {}
+
     def h_pre(I, v, args, kwargs, node):
         I.log("manager.preprocess", node, args=tuple(args))
+        # preprocessing updates the flags and the time in the state: what is read before this point is stale
+        es = holder.get("es")
+        if es is not None:
+            d = I.deref(es)
+            d.entries["preprocessing_timed_out"] = Sym(("post", "preprocessing_timed_out"), "bool")
+            d.entries["preprocessing_time"] = Sym(("post", "preprocessing_time"), "float")
+            d.entries["preprocessing_done"] = Sym(("post", "preprocessing_done"), "bool")
         return Const(None)
 
     def h_inf(I, v, args, kwargs, node):
@@ -738,6 +772,7 @@ def _manager_rows(rep, ex: Explorer, stats):
     def setup(I):
         bb = make_belief_base(I)
         es = make_epistemic_state(I, bb, "system-z")
+        holder["es"] = es
         s = I.alloc(HObj("inference.inference_manager.InferenceManager", {"epistemic_state": es}))
         qs = I.alloc(HObj("inference.queries.Queries", {"conditionals": _queries(I), "name": Sym(("qname",), "str"), "signature": Sym("qsig")}))
         return [s, qs], {}
@@ -784,7 +819,7 @@ def _manager_rows(rep, ex: Explorer, stats):
             rep.check(col in cols, "ROWS.columns", site, f"column {col} present", f"the report has the column {col}", extracted=str(sorted(cols)), required=col, function=site)
         if "preprocessing_timed_out" in cols:
             v = cols["preprocessing_timed_out"].value
-            rep.check(v == Const(False) or "preprocessing_timed_out" in repr(desc(v)), "ROWS.columns", site, "column preprocessing_timed_out", "the preprocessing flag of the state is reported in every row", extracted=repr(v)[:80], required="state flag", function=site)
+            rep.check(v == Sym(("post", "preprocessing_timed_out"), "bool"), "ROWS.columns", site, "column preprocessing_timed_out", "every row reports the preprocessing flag as it is after this call's preprocessing", extracted=repr(v)[:80], required="state flag after preprocessing", function=site)
     rep.floor("result lookups in the manager's row loop", n, 4)
     stats["manager_lookups"] = n
 
